@@ -42,8 +42,8 @@ package agreement
 //   M  a map filled in the opposite insertion order encodes to the same bytes (both encoders)
 // Documented exceptions bracketed exactly (protocol/codec_tester.go): a decoder may answer
 // "missing required field" when a `required` leaf of an emitted struct is zero (counted as
-// class required-reject, encoders must still agree); crypto.HashType is kept < MaxHashType
-// (HashFactory.Validate runs after unmarshal); collections stay <= 2 elements and strings
+// class required-reject, encoders must still agree); crypto.HashType is an enum and takes every
+// valid variant 1..MaxHashType-1 (HashFactory.Validate runs after unmarshal); collections stay <= 2 elements and strings
 // <= 2 bytes so every allocbound is respected.
 //
 // Not covered: values beyond the boundary sets, three or more simultaneously non-default
@@ -305,7 +305,9 @@ func c40values(t reflect.Type) (vals []reflect.Value, names []string, twins map[
 	switch t.Kind() {
 	case reflect.Uint, reflect.Uint8, reflect.Uint16, reflect.Uint32, reflect.Uint64, reflect.Uintptr:
 		if t == c40hashTypeT {
-			for _, x := range []uint64{1, 2} { // HashFactory.Validate: < MaxHashType
+			// an enum, not a magnitude: EVERY valid variant (HashFactory.Validate runs after
+			// unmarshal and must accept exactly what the encoder can produce: 0 < x < MaxHashType)
+			for x := uint64(1); x < uint64(crypto.MaxHashType); x++ {
 				v := nv()
 				v.SetUint(x)
 				add(v, fmt.Sprint(x))
